@@ -23,9 +23,9 @@ func init() { checks["C02"] = c02{} }
 func (c02) Level() string { return "exploration" }
 func (c02) NumCases(tier string) int {
 	if tier == "thorough" {
-		return 30000
+		return 150000
 	}
-	return 1200
+	return 6000
 }
 func (c02) Rule() string {
 	return "case = generated (engine config, template, logical bindings with maps of 2..12 entries, pointers at variable/element/field positions); executions = one canonical run plus one run per varied dimension (map iteration order desc/rotate/shuffle/native at every range-over-map and MapKeys site, bindings rebuilt in shuffled insertion order at new addresses, engine reused after a seeded history of other parses/renders incl. failing ones, parsed template reused vs fresh parse, each of the 6 entry points, clock jump, plain repeat, cmd/liquid child process for string-only bindings) plus seeded random combinations; oracle: all executions give the same (ok, bytes, Error(), Path(), LineNumber()). An execution is non-trivial if the template reads at least one binding; distinct by hash(source, bindings, execution settings)."
@@ -430,6 +430,9 @@ func c02Violation(c *Ctx, cs *C02Case, f c02Fail, idx int) *Violation {
 	orig := *cs
 	orig.A, orig.B, orig.Dim = f.a, f.b, f.dim
 	ob, _ := json.Marshal(orig)
+	if !c.mayMinimise(f.sig) {
+		return &Violation{Property: c.Prop, Clause: "same-result", Detail: f.detail, Signature: f.sig, Seed: c.Seed, Index: idx, Case: ob}
+	}
 	deadline := time.Now().Add(20 * time.Second)
 	cur := orig
 	// minimisation keeps (kind, dimension) but lets the construct part change
